@@ -80,6 +80,21 @@ const cBodyText = "request-body-0123456789"
 var errValidator = errors.New("injected validator verdict")
 var errGetBody = errors.New("injected GetBody failure")
 
+// tempErr is a validator verdict that claims to be temporary / a timeout: the property says a
+// validator failure ends Connect at once, whatever the error looks like.
+type tempErr struct{ temporary, timeout bool }
+
+func (e *tempErr) Error() string   { return "injected validator verdict (temporary/timeout)" }
+func (e *tempErr) Temporary() bool { return e.temporary }
+func (e *tempErr) Timeout() bool   { return e.timeout }
+
+// eofWrapErr is a read error that wraps io.EOF (as *net.OpError can): it is a failed read, not a
+// clean end of the stream.
+type eofWrapErr struct{ n int }
+
+func (e *eofWrapErr) Error() string { return fmt.Sprintf("injected read error #%d wrapping EOF", e.n) }
+func (e *eofWrapErr) Unwrap() error { return io.EOF }
+
 type readErr struct{ n int }
 
 func (e *readErr) Error() string { return fmt.Sprintf("injected read error #%d", e.n) }
@@ -230,10 +245,17 @@ func runClient(t *testing.T, sc *cScript) (obs *cObs) {
 				h := http.Header{"Content-Type": []string{"text/event-stream"}}
 				status := 200
 				if !sc.CustomValidator {
-					if a%2 == 0 {
+					switch (a + len(sc.Attempts)) % 5 {
+					case 0:
 						status = 500
-					} else {
+					case 1:
 						h = http.Header{"Content-Type": []string{"text/plain"}}
+					case 2:
+						status = 204 // "no content": still not a valid event stream for the default validator
+					case 3:
+						status = 301
+					default:
+						h = http.Header{}
 					}
 				}
 				return &http.Response{Status: http.StatusText(status), StatusCode: status, Proto: "HTTP/1.1", ProtoMajor: 1, ProtoMinor: 1,
@@ -245,6 +267,11 @@ func runClient(t *testing.T, sc *cScript) (obs *cObs) {
 			}
 			if sp.End == "rerr" {
 				e := &readErr{a}
+				obs.ReadErrs[a] = e
+				cr.EndErr = e
+			}
+			if sp.End == "rerr_eof" {
+				e := &eofWrapErr{a}
 				obs.ReadErrs[a] = e
 				cr.EndErr = e
 			}
@@ -273,8 +300,15 @@ func runClient(t *testing.T, sc *cScript) (obs *cObs) {
 			cl.ResponseValidator = func(r *http.Response) error {
 				a := attempt
 				if a < len(sc.Attempts) && sc.Attempts[a].Kind == "reject" {
-					obs.ValErrs[a] = errValidator
-					return errValidator
+					var e error = errValidator
+					switch (a + len(sc.Attempts)) % 3 {
+					case 1:
+						e = &tempErr{temporary: true}
+					case 2:
+						e = fmt.Errorf("validator: %w", &tempErr{timeout: true})
+					}
+					obs.ValErrs[a] = e
+					return e
 				}
 				return nil
 			}
@@ -368,7 +402,7 @@ func interpretAttempt(a cAttempt, lastID string) streamOutcome {
 	}
 	o := ref.Interpret(data, ref.Opts{Adapt: true, Conn: true, InitialID: lastID})
 	so := streamOutcome{LastID: lastID, Retries: o.Retries}
-	abnormal := cut || a.End == "rerr"
+	abnormal := cut || a.End == "rerr" || a.End == "rerr_eof"
 	for _, e := range o.Events {
 		if e.AtEOF && abnormal {
 			continue
@@ -379,7 +413,7 @@ func interpretAttempt(a cAttempt, lastID string) streamOutcome {
 	switch {
 	case cut:
 		so.EndKind = "cancel"
-	case a.End == "rerr":
+	case a.End == "rerr" || a.End == "rerr_eof":
 		so.EndKind = "rerr"
 	case o.UnexpectedEOF:
 		so.EndKind = "ueof"
@@ -664,7 +698,7 @@ func judgeClient(sc *cScript, obs *cObs, prop string) (out []jv) {
 			out = append(out, jvf(tags, "the context was cancelled (attempt %d) but Connect returned %v", i, obs.Ret))
 		}
 	case "validator":
-		want := error(errValidator)
+		want := obs.ValErrs[lastAttempt]
 		if !sc.CustomValidator {
 			want = nil
 		}
@@ -688,7 +722,12 @@ func judgeClient(sc *cScript, obs *cObs, prop string) (out []jv) {
 		case "terr":
 			okErr = errors.Is(obs.Ret, obs.TErrs[lastAttempt])
 		case "rerr":
-			okErr = errors.Is(obs.Ret, obs.ReadErrs[lastAttempt])
+			okErr = false
+			for e := obs.Ret; e != nil; e = errors.Unwrap(e) {
+				if e == obs.ReadErrs[lastAttempt] {
+					okErr = true
+				}
+			}
 		case "eof":
 			okErr = errors.Is(obs.Ret, io.EOF) && !errors.Is(obs.Ret, sse.ErrUnexpectedEOF)
 		case "ueof":
